@@ -389,6 +389,18 @@ def gen_redef_session(rng, np_=None):
         aborting = rng.chance(1, 4)
         if aborting:
             before = sess.emit('* snapshot %d' % f, kind='snapshot', noframe=True)
+        recvars = [v for v in schema.vars if v.isrec and v.nd >= 1]
+        from_indep = sess.np > 1 and recvars and not aborting and rng.chance(1, 3)
+        if from_indep:
+            # redef entered DIRECTLY from independent mode after the last rank alone has appended records:
+            # redef must first agree on the record count (as end_indep_data does), or rank 0 writes a header
+            # with too few records and the ranks move different amounts of data
+            v = rng.choice(recvars)
+            st = [sess.numrecs] + [0] * (v.nd - 1)
+            cnt = [rng.range(1, 2)] + list(v.shape[1:])
+            sess.begin_indep()
+            sess.one_access('put', 'i', v, st, cnt, [1] * v.nd, who=str(sess.np - 1), form='vara')
+            sess.note_put_numrecs(v, st, cnt, [1] * v.nd)
         sess.emit('* redef %d' % f)
         if rng.chance(1, 2):
             # fill mode: enddef fills the NEW variables (fixed ones, and record variables for every existing
@@ -424,6 +436,8 @@ def gen_redef_session(rng, np_=None):
             sess.emit('* _enddef %d %s' % (f, fmt_list(ea)), kind='enddef')
         else:
             sess.emit('* enddef %d' % f, kind='enddef')
+        if from_indep:
+            sess.emit('* sync %d' % f)
         meta_point(sess, ms, noframe=True)
         read_all(sess, rng)
         rw_ops(sess, rng, rng.range(1, 4), allow_indep=False)
